@@ -29,6 +29,7 @@ from ..deviations import active, tla_set
 from ..tlc import MachineryError, SPECS, require_coverage, run_tlc, write_cfg
 from ..realise import navdoc as ND
 from ..observe import nav as OB
+from ..observe import dumppdf as DP
 
 NAV = os.path.join(SPECS, "nav")
 logging.disable(logging.CRITICAL)
@@ -36,6 +37,9 @@ logging.disable(logging.CRITICAL)
 LABEL_DEVS = ("AlphaBijective",)
 DEST_DEVS = ("NameVsLimits",)
 OUTLINE_DEVS = ("DropsUntargeted", "NextRecurses")
+# extended coverage (outside C17's statement): tools/dumppdf.py.  As-coded switches, listed in known_findings/C17.json
+# under "dev": "dump:<Name>" like the others, but differences are reported as NOTE lines, never as violations
+DUMP_DEVS = ("IndirectActionIgnored", "MissingDestAborts", "RefNotReinterpreted", "NonPageAborts")
 
 # ------------------------------------------------------------------------------------------------ configurations
 ALL_STYLES = '{"D", "R", "r", "A", "a", "none"}'
@@ -57,6 +61,9 @@ CONFIGS = {
         "outline": [dict(MaxItems=5, Targets='{"Dest", "none"}'), dict(MaxItems=4, Targets='{"Dest", "A", "none"}')],
         "text": [dict(name="bom", Alphabet="<- Alpha16", MaxLen=5, Prefixes="<- BomPrefix"),
                  dict(name="any", Alphabet="<- AlphaDoc", MaxLen=4, Prefixes="<- NoPrefix")],
+        "dumpoutline": [dict(P=2)],
+        "dumpxml": [dict(name="values", Docs="<- OneObject", Codecs="<- AllCodecs"),
+                    dict(name="loop", Docs="<- LoopDocsSmall", Codecs="<- AllCodecs")],
     },
     "thorough": {
         "numtree": [dict(NKeys=6, Depth=3, Fan=3)],
@@ -75,6 +82,9 @@ CONFIGS = {
         "outline": [dict(MaxItems=6, Targets='{"Dest", "none"}'), dict(MaxItems=5, Targets='{"Dest", "A", "none"}')],
         "text": [dict(name="bom", Alphabet="<- Alpha16", MaxLen=6, Prefixes="<- BomPrefix"),
                  dict(name="any", Alphabet="<- AlphaDocWide", MaxLen=4, Prefixes="<- NoPrefix")],
+        "dumpoutline": [dict(P=3)],
+        "dumpxml": [dict(name="values", Docs="<- OneObject", Codecs="<- AllCodecs"),
+                    dict(name="loop", Docs="<- LoopDocs", Codecs="<- AllCodecs")],
     },
 }
 
@@ -164,6 +174,14 @@ def _chunk(args):
     return out
 
 
+def note_extended(ck, key, what):
+    """extended coverage (outside the property's statement): a counter per key, the first case of each as a NOTE"""
+    ext = ck.extra.setdefault("extended_coverage", {})
+    ext[key] = ext.get(key, 0) + 1
+    if ext[key] == 1:
+        ck.note("EXTENDED-COVERAGE %s: %s" % (key, what[:600]))
+
+
 def fan_out(ck, kind, items, replay_of):
     """evaluates every item in the worker pool; reports findings; -> (drift, evaluated)"""
     if not items:
@@ -177,7 +195,10 @@ def fan_out(ck, kind, items, replay_of):
             for i, findings, d, n, nontrivial, sample in res:
                 drift += d
                 for key, what in findings:
-                    report(ck, key, what, replay_of(items[i], i))
+                    if key.startswith("extended:"):
+                        note_extended(ck, key[len("extended:"):], what)
+                    else:
+                        report(ck, key, what, replay_of(items[i], i))
                 ck.case(n, (kind, i) if nontrivial else None)
                 ck.replayed += n
                 if sample is not None and not findings:
@@ -411,7 +432,130 @@ def eval_text(rec, i):
     return findings, drift, 1, bool(rec["claimed"] and len(data) > 2), sample
 
 
-_EVAL = {"numtree": eval_numtree, "labels": eval_labels, "dests": eval_dests, "outline": eval_outline, "text": eval_text}
+# ================================================================================================ tools/dumppdf.py
+def extended(findings, key, what):
+    """a difference outside C17's statement: reported as NOTE (extended coverage), never as a violation"""
+    findings.append(("extended:" + key, what))
+
+
+def eval_dumpoutline(rec, i):
+    """one terminal state of DumpPdf.tla: the item's /Dest, /A and what its name stands for"""
+    findings, drift = [], 0
+    data = ND.dumpoutline_doc(rec["dest"], rec["a"], rec["nv"], npages=rec["np"])
+    detail = "outline item with /Dest %s /A %s, name -> %s" % (json.dumps(rec["dest"]), json.dumps(rec["a"]), json.dumps(rec["nv"]))
+    ok, res = guarded("dumpoutline", lambda: DP.run_dumpoutline(data), findings, detail)
+    if not ok:
+        return findings, 0, 1, False, None
+    items, err, text = res
+    # inside the statement: the entries with their levels in document order (when the run is not cut short)
+    if err == "none" and [(x["level"], x["title"]) for x in items] != [(1, "One"), (1, "Two")]:
+        findings.append(("dumpoutline:items", "dumpoutline lists %s, the outline holds One and Two at level 1 (%s)" % (items, detail)))
+    real = (err, items[0]["pageno"] if items else 0)
+    want = ("none", rec["ref"])
+    coded = (rec["err"], rec["pageno"])
+    if real != want:
+        if real == coded and rec["fired"]:
+            for dname in rec["fired"]:
+                extended(findings, dname, "dumpoutline gives %s for an %s; the destination resolves to page %s" % (real, detail, rec["ref"] or None))
+        else:
+            extended(findings, "unexplained:dumpoutline", "dumpoutline gives (error, page) = %s, the specification %s as coded and %s as intended, for an %s"
+                     % (real, coded, want, detail))
+    if err == "none" and len(items) == 2 and items[1]["pageno"] != rec["np"]:
+        extended(findings, "unexplained:dumpoutline", "the second item shows page %s, expected %d (%s)" % (items[1]["pageno"], rec["np"], detail))
+    sample = {"Dest": rec["dest"], "A": rec["a"], "name_stands_for": rec["nv"], "expected_page": rec["ref"], "observed": list(real)} if i % 97 == 0 else None
+    return findings, drift, 1, rec["dest"]["k"] != "none" or rec["a"]["k"] != "none", sample
+
+
+def writer_value(v):
+    """an object record of DumpXmlOps.tla as a value for the PDF writer"""
+    from ..realise.pdfwriter import Name, Raw, Ref, Stream
+    k = v["k"]
+    if k == "null":
+        return None
+    if k == "bool":
+        return bool(v["b"])
+    if k == "num":
+        txt = "".join(chr(c) for c in v["txt"])
+        return float(txt) if "." in txt else int(txt)
+    if k == "str":
+        return bytes(v["s"])
+    if k == "lit":
+        return Name("".join(chr(c) for c in v["s"]))
+    if k == "kw":
+        return Raw(bytes(v["s"]))
+    if k == "ref":
+        return Ref(v["id"])
+    if k == "list":
+        return [writer_value(x) for x in v["items"]]
+    if k == "dict":
+        return {"".join(chr(c) for c in key): writer_value(x) for key, x in v["items"]}
+    if k == "stream":
+        return Stream(writer_value(v["attrs"]), bytes(v["data"]))
+    raise MachineryError("unknown object record %r" % (v,))
+
+
+def eval_dumpxml(rec, i):
+    """one terminal state of DumpXml.tla.  One section / one object: dumpxml on a real object built from the record.
+    Several sections: a real file with incremental updates through dumpallobjs."""
+    findings, drift = [], 0
+    doc, codec = rec["doc"], rec["codec"]
+    pcodec = None if codec == "none" else codec
+    single = len(doc["xrefs"]) == 1 and doc["xrefs"][0]["ids"] == [1] and len(doc["objs"]) == 1
+    if single:
+        val = doc["objs"][0]
+        detail = "object %s, codec %s" % (json.dumps(val)[:300], codec)
+        ok, res = guarded("dumpxml", lambda: DP.run_dumpxml(DP.build_object(val), pcodec), findings, detail)
+        if not ok:
+            return findings, 0, 1, False, None
+        text, err = res
+        if rec["err"] != "none":
+            if err != rec["err"]:
+                extended(findings, "unexplained:dumpxml", "dumpxml ends with %s, the specification with %s (%s)" % (err, rec["err"], detail))
+            else:
+                for dname in rec["fired"]:
+                    if dname == "RawBinaryTypeError":
+                        extended(findings, dname, "dumpxml with codec %s raises TypeError on a stream" % codec)
+        elif not [e for e in rec["out"] if e["id"] == 1]:
+            pass        # a null object is left out by dumpallobjs; dumpxml(None) is covered inside the containers
+        else:
+            want = DP.render([e for e in rec["out"] if e["id"] == 1][0]["toks"])
+            if err is not None or text != want:
+                extended(findings, "unexplained:dumpxml", "dumpxml writes %r (error %s), the specification %r (%s)" % (text[:200], err, want[:200], detail))
+            elif "MarkupInNames" in rec["fired"]:
+                extended(findings, "MarkupInNames", "dumpxml writes a key / name with raw markup characters: %r" % text[:120])
+        sample = {"object": val, "codec": codec, "written": text[:200], "error": err} if i % 211 == 0 else None
+        return findings, drift, 1, val["k"] in ("list", "dict", "stream", "str"), sample
+    # ---- the loop over sections
+    values = [writer_value(v) for v in doc["objs"]]
+    data = ND.objects_doc(doc["xrefs"], values)
+    detail = "sections %s objects %s codec %s" % ([x["ids"] for x in doc["xrefs"]], [v["k"] for v in doc["objs"]], codec)
+    ok, res = guarded("dumpallobjs", lambda: DP.run_dumpallobjs(data, pcodec), findings, detail)
+    if not ok:
+        return findings, 0, 1, False, None
+    _pdfdoc, text, err = res
+    if rec["err"] != "none" or err:
+        if (err or "none") != rec["err"]:
+            extended(findings, "unexplained:dumpallobjs", "dumpallobjs ends with %s, the specification with %s (%s)" % (err, rec["err"], detail))
+        return findings, drift, 1, True, None
+    blocks, well = DP.split_objects(DP.tokenize(text))
+    if not well:
+        extended(findings, "unexplained:dumpallobjs", "the output of dumpallobjs is not a sequence of <object> / <trailer> blocks (%s)" % detail)
+    got_ids = [b[0] - 10 for b in blocks if b[0] > 10] + [b[0] for b in blocks if b[0] < 0]
+    want_ids = [e["id"] for e in rec["out"]]
+    if got_ids != want_ids:
+        extended(findings, "unexplained:dumpallobjs", "dumpallobjs writes test objects / trailers %s, the specification %s (%s)" % (got_ids, want_ids, detail))
+    else:
+        by_id = {b[0] - 10: b[1] for b in blocks if b[0] > 10}
+        for e in rec["out"]:
+            if e["id"] > 0 and DP.render(by_id[e["id"]]) != DP.render(e["toks"]):
+                extended(findings, "unexplained:dumpallobjs", "object %d is written as %r, the specification has %r (%s)"
+                         % (e["id"], DP.render(by_id[e["id"]])[:160], DP.render(e["toks"])[:160], detail))
+                break
+    sample = {"sections": doc["xrefs"], "objects": [v["k"] for v in doc["objs"]], "codec": codec, "written_ids": got_ids} if i % 499 == 0 else None
+    return findings, drift, 1, len(doc["xrefs"]) > 1, sample
+
+
+_EVAL = {"dumpoutline": eval_dumpoutline, "dumpxml": eval_dumpxml, "numtree": eval_numtree, "labels": eval_labels, "dests": eval_dests, "outline": eval_outline, "text": eval_text}
 
 
 # ================================================================================================ direction A
@@ -454,12 +598,27 @@ def direction_a(ck, dev):
             submit("text", "text:" + name, "MC_TextString", c, ["DecodeRule"], ["ModeStable", "Progress"],
                    ["TBomTest", "TUnit", "TEnd"] + (["TOddTail"] if name == "bom" else ["TDocByte"]),
                    "text strings " + name, os.path.join(ck.tmp, "tx%d.ndjson" % n), dev=None, coverage=quick)
+        xdev = [d for d in active("dump") if d in DUMP_DEVS]
+        for n, c in enumerate(conf["dumpoutline"]):
+            submit("dumpoutline", "dumpoutline", "MC_DumpPdf", c, ["Resolution", "NeverWrongPage", "RunShape"], ["Progress"],
+                   ["DTest", "RName", "RDict", "RRef", "PLookup", "AAction"], "dumpoutline P=%(P)d" % c,
+                   os.path.join(ck.tmp, "do%d.ndjson" % n), dev=xdev, coverage=quick)
+        for n, c in enumerate(conf["dumpxml"]):
+            c = dict(c)
+            name = c.pop("name")
+            submit("dumpxml", "dumpxml:" + name, "MC_DumpXml", c, ["EachObjectOnce", "Total", "WellFormed", "EscapeSound"], ["Progress"],
+                   ["ADumpObj", "ANextXref", "AToTrailers", "ATrailer", "AEnd"] + (["ASkipVisited", "ASkipNull"] if name == "loop" else []),
+                   "dumpxml " + name, os.path.join(ck.tmp, "dx%d.ndjson" % n), dev=None, coverage=quick)
         # the terminal states of each finished model are replayed while the others are still being checked
         for kind, name, fut in jobs:
             recs = account(ck, fut.result())
             if not recs:
                 continue
             counts[name] = counts.get(name, 0) + len(recs)
+            if kind == "dumpoutline":
+                np_of = {c2["P"] for c2 in conf["dumpoutline"]}
+                for r in recs:
+                    r["np"] = max(np_of) if len(np_of) == 1 else r.get("np", max(np_of))
             if kind == "dests":
                 groups = {}
                 for r in recs:
@@ -664,10 +823,167 @@ def direction_b(ck, dev):
     ck.extra["recorded_dest_queries"] = sum(len(x["queries"]) for dct in docs for x in dct["dests"])
     ck.extra["recorded_text_strings"] = sum(len(dct["texts"]) for dct in docs)
     ck.extra["documents_outside_domain"] = outside
+    # ---- extended coverage: tools/dumppdf.py
+    ddocs, doutside = record_dumppdf(ck)
+    drej = validate_dumppdf(ck, ddocs)
+    ck.traces += len(ddocs) - drej
+    for dct in ddocs:
+        n = len(dct["outline"]["items"]) + sum(len(dm["objs"]) for dm in dct["dumps"])
+        ck.case(n, ("Bdump", dct["name"]) if n > 3 else None)
+    ck.extra["dumppdf_recorded_documents"] = len(ddocs)
+    ck.extra["dumppdf_recorded_outline_items"] = sum(len(dct["outline"]["items"]) for dct in ddocs)
+    ck.extra["dumppdf_recorded_objects_given_to_the_model"] = sum(len(dm["objs"]) for dct in ddocs for dm in dct["dumps"])
+    ck.extra["dumppdf_recorded_objects_not_given"] = sum(dm["skipped"] for dct in ddocs for dm in dct["dumps"])
+    ck.extra["dumppdf_documents_outside_domain"] = doutside
     smp = [dct for dct in docs if dct["name"].startswith("sample:") and dct["labels"]]
     if smp:
         ck.sample({"trace": smp[0]["name"], "labels": smp[0]["labels"][0]["out"][:8], "outline": [o["out"][:3] for o in smp[0]["outlines"]],
                    "dest_queries": [x["queries"][:3] for x in smp[0]["dests"]]})
+
+
+# ---- tools/dumppdf.py on the samples its own tests use (tests/test_tools_dumppdf.py) and on the samples with outlines
+DUMP_SAMPLES = ["simple1.pdf", "simple2.pdf", "simple3.pdf", "jo.pdf", "nonfree/dmca.pdf", "nonfree/f1040nr.pdf", "nonfree/i1040nr.pdf",
+                "nonfree/kampo.pdf", "nonfree/naacl06-shinyama.pdf",
+                "contrib/pagelabels.pdf", "contrib/issue-1082-annotations.pdf", "encryption/encrypted_doc_no_id.pdf", "simple5.pdf"]
+
+
+def record_dumppdf(ck):
+    st = DP.self_check()
+    if st:
+        raise MachineryError("dumppdf tokenizer self-check failed: " + st)
+    rng = random.Random(ck.seed + 17)
+    quick = ck.tier == "quick"
+    sources = []
+    for rel in DUMP_SAMPLES:
+        f = os.path.join("/repo/samples", rel)
+        if os.path.exists(f):
+            sources.append(("sample:samples/" + rel, open(f, "rb").read(), ""))
+    if len(sources) < 9:
+        raise MachineryError("the samples of tests/test_tools_dumppdf.py are missing")
+    # generated: every spelling of a destination among a few hundred outline items
+    for j in range(2 if quick else 8):
+        sources.append(("generated:dumpoutline:#%d" % j, big_dump_document(rng, 40 if quick else 300), ""))
+    docs, outside = [], {}
+    for name, data, pw in sources:
+        try:
+            ol, np_, n_items = DP.record_outline(data, pw)
+            dumps = []
+            for codec in ((None, "text") if quick else (None, "text", "raw", "binary")):
+                dumps.append(DP.record_dump(data, codec, pw, max_objects=25 if quick else 400, max_size=500 if quick else 4000))
+            if quick and name.endswith("simple1.pdf"):
+                dumps.append(DP.record_dump(data, "raw", pw))
+        except DP.NotAbstractable as e:
+            outside[name] = str(e)
+            continue
+        docs.append({"name": name, "np": np_, "outline": ol, "dumps": dumps})
+        # inside C17's statement: dumpoutline lists the entries get_outlines gives, with their levels, in order
+        want = [(it["level"], it["title"]) for it in ol["items"]]
+        got = [(o["level"], o["title"]) for o in ol["out"]]
+        if (ol["err"] == "none" and got != want) or got != want[:len(got)]:
+            ck.violation("dumpoutline:items", "dumpoutline lists %s ..., get_outlines gives %s ... on %s" % (got[:6], want[:6], name),
+                         {"kind": "dumptrace", "name": name, "doc": None})
+    return docs, outside
+
+
+def big_dump_document(rng, n):
+    from ..realise.pdfwriter import Name, Ref
+    o = ND._Objs(6)
+    root_id = o.reserve()
+    ids = [o.reserve() for _ in range(n)]
+    names = []
+    dests = {}
+    for j in range(n):
+        pg = Ref(o.page_ids[rng.randrange(6)])
+        arr = [pg, Name("XYZ"), 0, j, 0]
+        form = rng.choice(["arr", "arr-ind", "str", "str-dict", "lit", "dict", "act", "act-ind", "act-str", "uri", "none", "none"])
+        item = {"Title": ("Item %d <&>" % j).encode(), "Parent": Ref(root_id)}
+        if form == "arr":
+            item["Dest"] = arr
+        elif form == "arr-ind":
+            item["Dest"] = o.new(arr)
+        elif form in ("str", "str-dict"):
+            key = b"d%04d" % j
+            names.append((key, {"D": arr} if form == "str-dict" else o.new(arr)))
+            item["Dest"] = key
+        elif form == "lit":
+            dests["n%d" % j] = arr
+            item["Dest"] = Name("n%d" % j)
+        elif form == "dict":
+            item["Dest"] = {"D": o.new(arr)}
+        elif form == "act":
+            item["A"] = {"S": Name("GoTo"), "D": arr}
+        elif form == "act-ind":
+            item["A"] = o.new({"S": Name("GoTo"), "D": arr})
+        elif form == "act-str":
+            key = b"a%04d" % j
+            names.append((key, arr))
+            item["A"] = {"S": Name("GoTo"), "D": key}
+        elif form == "uri":
+            item["A"] = {"S": Name("URI"), "URI": b"http://example.invalid/%d" % j}
+        if j + 1 < n:
+            item["Next"] = Ref(ids[j + 1])
+        if j:
+            item["Prev"] = Ref(ids[j - 1])
+        o.objs[ids[j]] = item
+    o.objs[root_id] = {"Type": Name("Outlines"), "First": Ref(ids[0]), "Last": Ref(ids[-1]), "Count": n}
+    names.sort()
+    cat = {"Outlines": Ref(root_id), "Dests": dests, "Names": {"Dests": o.new({"Names": [x for p in names for x in p]})}}
+    return o.finish(cat, 0)
+
+
+def validate_dumppdf(ck, docs):
+    """DumpPdfTrace.tla over the recorded runs.  Everything here is outside C17's statement: a document the
+    specification does not explain is reported as NOTE (extended coverage) and counted."""
+    xdev = [d for d in active("dump") if d in DUMP_DEVS]
+    todo = list(docs)
+    rejected = 0
+    first = True
+
+    def run(dv, tag):
+        tf = os.path.join(ck.tmp, "c17_dump_%s.json" % tag)
+        with open(tf, "w") as f:
+            json.dump(todo, f)
+        cfg = write_cfg(os.path.join(ck.tmp, "c17_dump_%s.cfg" % tag), constants={"Dev": tla_set(dv) if dv else "{}"}, spec="Spec",
+                        invariants=["InRange"], deadlock=True)
+        res = run_tlc(os.path.join(NAV, "DumpPdfTrace.tla"), cfg, workers=1, env={"TRACE_FILE": tf, "JAVA_TOOL_OPTIONS": "-Xss256m"},
+                      timeout=3600, heap="6g")
+        if not res.ok and (res.violated != "deadlock" or not res.error_trace):
+            raise MachineryError("dumppdf trace validation failed unexpectedly: " + res.error_text[:2000])
+        return res
+    while todo:
+        res = run(xdev, "coded")
+        ck.add_tlc(res, "recorded dumppdf runs (%d documents)" % len(todo))
+        if res.ok:
+            break
+        if first and xdev:
+            first = False
+            explained = None
+            for sub in proper_subsets(xdev):
+                res2 = run(sub, "sub")
+                ck.add_tlc(res2, "recorded dumppdf runs against the model with deviations %s (%d documents)" % (sub, len(todo)))
+                if res2.ok:
+                    explained = sub
+                    break
+            if explained is not None:
+                ck.note("the recorded dumppdf runs follow the model with deviations %s only, where %s are listed (repaired in this tree?)" % (explained, xdev))
+                break
+        st = res.error_trace[-1][1]
+        dnum, phase, j = int(st["d"]), st.get("phase", "?").strip('"'), int(st.get("j", "0"))
+        doc = todo[dnum - 1]
+        todo = todo[dnum:]
+        rejected += 1
+        if phase == "outline":
+            it = doc["outline"]["items"]
+            what = "item %d %s; dumpoutline wrote %s (run ended with %s)" % (
+                j, it[j - 1] if j <= len(it) else "(end)", doc["outline"]["out"][j - 1] if j <= len(doc["outline"]["out"]) else "(nothing)", doc["outline"]["err"])
+        else:
+            dm = doc["dumps"][j - 1] if j <= len(doc["dumps"]) else {}
+            what = "dumpallobjs run %d (codec %s, %d objects given to the model, ended with %s)" % (j, dm.get("codec"), len(dm.get("objs", ())), dm.get("err"))
+        note_extended(ck, "trace-rejected:dumppdf:" + phase, "recorded run of tools/dumppdf.py on %s is not a behaviour of the specification: %s" % (doc["name"], what))
+        if rejected >= 5:
+            rejected += len(todo)
+            break
+    return rejected
 
 
 def max_chain(items):
